@@ -67,6 +67,24 @@ theorem C06_call_order :
     ∧ (callSeq Gen.struct_extra_files_ExtraFiles_serialize).map (·.2.1) = ["self", "self.header.serialize", "self.compose.serialize"] := by
   decide +kernel
 
+/-- … and the GUARD under which each nested writer is called: the base product is written exactly for a layered release, a variant's
+own release exactly for a layered product (what `parts` / `steps` assume); everything else unconditionally -/
+theorem C06_call_guards :
+    (callSeq Gen.struct_composeinfo_ComposeInfo_serialize).map (fun e => (e.2.1, e.2.2))
+      = [("self.header.serialize", []), ("self.compose.serialize", []), ("self.release.serialize", []),
+         ("self.base_product.serialize", ["if:self.release.is_layered"]), ("self.variants.serialize", [])]
+    ∧ (callSeq Gen.struct_treeinfo_TreeInfo_serialize).map (fun e => (e.2.1, e.2.2))
+      = [("self", []), ("self.header.serialize", []), ("self.release.serialize", []), ("self.base_product.serialize", ["if:self.release.is_layered"]),
+         ("self.tree.serialize", []), ("self.variants.serialize", []), ("self.checksums.serialize", []), ("self.images.serialize", []),
+         ("self.stage2.serialize", []), ("self.media.serialize", []), ("general.serialize", [])]
+    ∧ (callSeq Gen.struct_composeinfo_Variant_serialize).map (fun e => (e.2.1, e.2.2))
+      = [("self.release.serialize", ["ifeq:self.type=layered-product"]), ("self.paths.serialize", []),
+         ("variant.serialize", ["for:self.variants.values()"]), ("variant_ids.add", ["for:self.variants.values()"]), ("self", [])]
+    ∧ (callSeq Gen.struct_images_Images_serialize).map (fun e => (e.2.1, e.2.2))
+      = [("self.header.serialize", []), ("self.compose.serialize", []),
+         ("image_obj.serialize", ["for:self.images", "for:self.images[variant]", "for:self.images[variant][arch]"])] := by
+  decide +kernel
+
 private theorem fl {P : Prop} (h : Flag.headerJsonSetsThenValidates = true → Flag.compose = true → Flag.ciRelease = true → Flag.ciBaseProduct = true
     → Flag.ciVariants = true → Flag.ciVariantLast = true → Flag.image = true → Flag.dumpTop = true → Flag.tiDumpTop = true
     → Flag.tiHeader = true → Flag.tiRelease = true → Flag.tiBaseProduct = true → Flag.tiTree = true → Flag.tiVariants = true
